@@ -112,6 +112,31 @@ def run(ctx, eng):
     ctx.record('calls', n_calls)
     # ---- iteration / formatting over sets
     sites = 0
+    def addressy(a, fi):
+        """`self` (or a fresh object()) formatted with %s/%r in a class that
+        defines neither __repr__ nor __str__: the default repr carries the
+        object's address, which differs from run to run."""
+        if isinstance(a, ast.Call) and isinstance(a.func, ast.Name) and \
+                a.func.id == 'object':
+            return True
+        if isinstance(a, ast.Name) and a.id == 'self' and fi.cls:
+            c = m.classes.get(fi.cls)
+            seen = set()
+            while c is not None and c.qual not in seen:
+                seen.add(c.qual)
+                if '__repr__' in c.methods or '__str__' in c.methods:
+                    return False
+                nxt = None
+                for b in c.bases:
+                    for cq, c2 in m.classes.items():
+                        if cq.split('.')[-1] == b:
+                            nxt = c2
+                    if b in ('Enum', 'IntEnum', 'Exception', 'dict', 'int',
+                             'MutableMapping', 'OrderedDict', 'tuple'):
+                        return False    # a repr that shows the value
+                c = nxt
+            return True
+        return False
     found = []
     for q, fi in sorted(m.funcs.items()):
         for nd in walk_own(fi.node):
@@ -147,6 +172,10 @@ def run(ctx, eng):
                     if is_setty(eng, a, fi):
                         found.append((q, 'formats a set into a message',
                                       a, nd))
+                    if addressy(a, fi):
+                        found.append((q, 'formats an object without a repr '
+                                      'of its own (its address) into a '
+                                      'message', a, nd))
                 continue
             elif isinstance(nd, ast.FormattedValue):
                 sites += 1
